@@ -773,6 +773,7 @@ def e_order_deliver_queued(eng, it, objs):
     """one of the messages Order had queued before the PAKE message arrived reaches Receive (the body of the real
     Order.drain loop); it happens inside RendezvousConnector.ws_message, whose handler reports any exception to the
     Boss and re-raises"""
+    it.ctx.assume(T_(it, objs, "order_drain_pending"))
     it.ctx.assume(T_(it, objs, "connected"))
     side, phase, body = inp(it, "side", "str"), inp(it, "phase", "str"), inp(it, "body", "bytes")
     it.ctx.assume(phase.z != z3.StringVal("pake"))         # Order queues non-pake messages only
